@@ -1012,6 +1012,23 @@ func (w *World) computeSigTargets() {
 	}
 }
 
+// closureName: short name of the function a closure runs; bound-method wrappers are named <method>$bound.
+func (w *World) closureName(fn *ssa.Function) string {
+	if n, ok := w.Names[fn]; ok {
+		return n
+	}
+	if strings.HasSuffix(fn.Name(), "$bound") {
+		if obj, ok := fn.Object().(*types.Func); ok {
+			if m := w.Prog.FuncValue(obj); m != nil {
+				if n, ok := w.Names[m]; ok {
+					return n + "$bound"
+				}
+			}
+		}
+	}
+	return fn.String()
+}
+
 // sigTargetsOf: the possible callees of a call through a function value of a closed-world type.
 func (w *World) sigTargetsOf(c *ssa.CallCommon) ([]*ssa.Function, bool) {
 	if c.IsInvoke() {
